@@ -38,7 +38,8 @@ CLAIMS = {
          "decided.", "type-checking the feature matrix + sibling comparison of HIR", "3.9, 4 C20"),
  "C17": ("E-RAW on linear_hashtbl::raw: inventory of writers of the free-slot counter, +1/-1 pairing with status stores, "
          "provenance of retain's successor-is-free flag, Drain's full sweep, counter assignment when the slot array is replaced, "
-         "probe-loop guards, Slot::clone keeps the status word. Necessary conditions of `free <= #FREE slots` (termination of lookups, intact probe chains); set "
+         "probe-loop guards, Slot::clone keeps the status word, remove frees a slot only next to a FREE successor, lookups "
+         "answer absent only on a FREE slot. Necessary conditions of `free <= #FREE slots` (termination of lookups, intact probe chains); set "
          "semantics over operation sequences is not decided.",
          "MIR dataflow/dominance rules with a frozen writer table", "3.8, 4 C17"),
  "C02": ("E-TABLE.{bdd,bcdd,shortcut,step} + E-WRAP + E-UNITS + E-CACHE: the terminal/base-case table of all 8 BDD connectives and "
@@ -76,7 +77,7 @@ CLAIMS = {
          "yields a second node with identical children); the loop invariant of set_var_order's level-permutation step. Necessary for 'every node is listed in the level it reports' and 'children on lower levels' after a "
          "reordering; does not decide uniqueness/reducedness over histories.",
          "dimension (unit) analysis over type-checked HIR + HIR table interpretation + who-may-call", "3.10, 3.3, 3.5, 4 C03"),
- "C06": ("E-CACHE + E-CACHE.dm + E-CACHE.substid + E-EVENT + E-TABLE tags: get/add key pairing, memoised value = returned value, injective and "
+ "C06": ("E-CACHE + E-CACHE.dm + E-CACHE.substid + E-EVENT + E-WHO + E-TABLE tags: get/add key pairing, memoised value = returned value, injective and "
          "name-consistent computed tags, pairwise disjoint tag sets per rules crate; the direct-mapped cache compares and hashes "
          "all key parts, never blocks on the operation path and keeps entries locked between pre_gc and post_gc; gc/reorder/"
          "add_vars* of both managers emit the invalidation events in order on every path; substitution ids (the cache key of "
